@@ -5,8 +5,9 @@ from common import from_replay, to_replay  # noqa: F401
 
 PID = "C02"
 COQ_MODULE = "Prop_C02"
-THEOREMS = ["C02_guard_covers", "C02_acquired_is_covered", "C02_position_routes", "C02_closure_under_hold", "C02_guards_exclusive"]
-CASE_MODULES = ["Conc", "BMonitors"]
+THEOREMS = ["C02_guard_covers", "C02_acquired_is_covered", "C02_position_routes", "C02_closure_under_hold", "C02_guards_exclusive",
+            "C02_every_schedule_data_under_hold", "C02_every_schedule_exclusive"]
+CASE_MODULES = ["Conc", "BMonitors", "WpMain"]
 CHECK_WITHOUT_PROOF = True
 TRUSTED = common.TRUSTED_COMMON + ["deterministic scheduler of the harness: real OS threads, one runnable at a time, "
                                    "every raw lock operation and data access is a scheduling point"]
